@@ -96,7 +96,7 @@ def _orientation(r):
 
 SCENARIOS = ['regular', 'regular', 'atol_only', 'rtol_only', 'wobble', 'wobble', 'wobble_dups', 'wobble_gaps', 'dups', 'gaps', 'gaps_hint', 'dups_gaps', 'jitter_in', 'jitter_out',
              'shear_in', 'shear_out', 'twin', 'hint_ok', 'hint_neg', 'hint_bad', 'unsorted', 'missing_jitter_in',
-             'missing_jitter_out', 'irregular', 'single', 'all_same']
+             'missing_jitter_out', 'gaps_far_in', 'gaps_far_out', 'gaps_far_half', 'irregular', 'single', 'all_same']
 
 
 def _scenario(r, idx, want=None):
@@ -185,23 +185,36 @@ def _scenario(r, idx, want=None):
         j = r.randrange(1, n - 1)
         offs[j] = 0.002 * s * r.choice([-1, 1]) * nrm
         expect_ok = False
-    elif sc in ('missing_jitter_in', 'missing_jitter_out'):
+    elif sc in ('missing_jitter_in', 'missing_jitter_out', 'gaps_far_in', 'gaps_far_out', 'gaps_far_half'):
+        # DECLARATIVE expectation (not the library's criterion): a stack with gaps is a volume iff every plane lies within
+        # atol + rtol*s (mm) of o + k*s*n for an integer k.  One plane - any plane, also one far up (k >= 50) - is moved along
+        # the normal by a quarter of that tolerance (still a volume, same indices) or by four times it / by 0.1-0.5 spacings
+        # (not a volume).  With or without a hint; without one two neighbouring planes are present.
         n = max(n, 3)
-        ks = [k0 + 2 * i for i in range(n)]
+        far = sc.startswith('gaps_far')
+        if far:
+            ks = [k0, k0 + 1] + sorted(r.sample(range(k0 + 50, k0 + 140), n - 2))
+        else:
+            ks = [k0, k0 + 1] + [k0 + 2 * i + 1 for i in range(1, n - 1)]
         opts['allow_missing_positions'] = True
-        opts['spacing_hint'] = s
-        # tolerance of the library in this mode is on the MULTIPLES: |m - round m| <= atol + rtol*round(m); the plane two
-        # spacings above the lowest is moved (tol = 2*rtol <= 0.1, so 4*tol stays below half a spacing)
-        j = 1
-        for kk in ('atol',):
-            opts.pop(kk, None)
-        rtol = opts.get('rtol', 0.01)
-        atol = 0.0
-        m = ks[j] - ks[0]
-        tol = rtol * m
-        d = (tol / 4 if sc == 'missing_jitter_in' else 4 * tol) * s * r.choice([-1, 1])
-        offs[j] = d * nrm
-        expect_ok = sc == 'missing_jitter_in'
+        if r.random() < 0.5:
+            opts['spacing_hint'] = s
+        tol = atol + rtol * s
+        j = r.randrange(2, len(ks)) if far else r.randrange(1, len(ks))
+        if sc in ('missing_jitter_in', 'gaps_far_in'):
+            d = tol / 4
+        elif sc == 'gaps_far_half':
+            d = r.choice([0.1, 0.25, 0.4, 0.5]) * s
+            if d <= 4 * tol:
+                d = min(4 * tol, 0.45 * s)
+        else:
+            d = min(4 * tol, 0.45 * s)
+        if j == 1 and 'spacing_hint' not in opts:
+            j = 2                       # planes 0 and 1 define the spacing when there is no hint
+        offs[j] = d * r.choice([-1, 1]) * nrm
+        expect_ok = sc in ('missing_jitter_in', 'gaps_far_in') and d <= tol / 2
+        if not expect_ok and d < 2 * tol:
+            expect_ok = None            # too close to the boundary to demand either outcome
     elif sc in ('shear_in', 'shear_out'):
         n = max(n, 3)
         ks = [k0 + i for i in range(n)]
@@ -250,6 +263,16 @@ def _scenario(r, idx, want=None):
         opts['allow_duplicate_positions'] = True
         if r.random() < 0.5:
             opts['spacing_hint'] = r.choice([0.5, -2.0, 3.25])
+    elif sc == 'min_gap_jitter':
+        # open finding C11-gaps-min-gap-estimate: no hint, the two neighbouring planes that define the smallest gap are a quarter
+        # of the tolerance closer than s, one plane lies far up: every plane is within tol/4 of the grid o + k*s*n, yet the
+        # library measures the far plane against the under-estimated spacing
+        opts.pop('rtol', None)
+        opts.pop('atol', None)
+        rtol, atol = 0.01, 0.0
+        ks = [k0, k0 + 1, k0 + r.randint(60, 140)]
+        opts['allow_missing_positions'] = True
+        offs[1] = -(rtol * s / 4) * nrm
     elif sc == 'hint_drift':
         # open finding C11-hint-drift: gaps allowed, hint within the 1 % tolerance of the true spacing, long stack
         n = r.randint(70, 110)
@@ -259,6 +282,7 @@ def _scenario(r, idx, want=None):
         rtol, atol = 0.01, 0.0
         opts['allow_missing_positions'] = True
         opts['spacing_hint'] = s * (1 + r.choice([-1, 1]) * r.choice([0.0075, 0.0085, 0.009]))
+        expect_ok = False           # the planes far up are 0.5 spacings and more off the hinted grid
     # positions
     pos = [origin + k * s * nrm + offs.get(i, np.zeros(3)) for i, k in enumerate(ks)]
     order = list(range(len(ks)))
@@ -295,6 +319,8 @@ def _scenario(r, idx, want=None):
     positions = [[float(x) for x in p] for p in pos]
     if err:
         expected = ('err',)
+    elif expect_ok is None:
+        expected = ('any',)
     elif not expect_ok:
         expected = ('none',)
     elif len(ks) == 1 or sc == 'all_same':
@@ -338,6 +364,8 @@ def _observe(st, val):
 
 def _check_expected(ctx, case, obs, sc, site='get_volume_positions'):
     exp = sc['expected']
+    if exp[0] == 'any':
+        return
     if exp[0] == 'err':
         if obs[0] != 'err':
             ctx.fail(case, {'what': 'mismatching spacing hint not reported', 'got': obs}, site=site)
@@ -571,26 +599,30 @@ def _integer_cases(ctx, reqs, pend):
 
 
 def _hint_drift_cases(ctx, reqs, pend):
-    """open finding C11-hint-drift: a handful of long stacks in the gaps branch with a hint within the 1 % tolerance of the
-    true spacing.  Runs LAST and reports at most one failure per case, so that the attributed failures can never crowd
-    real ones out of the (bounded) failure list."""
+    """(1) long stacks in the gaps branch with a hint 0.75-0.9 % off the true spacing: planes far up are half a spacing and
+    more off the hinted grid, so the stack must be REFUSED (defect C11-gaps-tolerance-grows, repaired).
+    (2) open finding C11-gaps-min-gap-estimate: a handful of cases, run LAST, at most one failure each, so that the attributed
+    failures can never crowd real ones out of the (bounded) failure list."""
     from highdicom import spatial as sp
-    for i in range(6 if ctx.tier == 'quick' else 12):
-        r = ctx.rng('drift', i)
-        sc = _scenario(r, i, want='hint_drift')
-        st, val = _call(sp.get_volume_positions, sc['positions'], sc['ori'], **sc['opts'])
-        obs = _observe(st, val)
-        case = {'fn': 'get_volume_positions', 'i': i, 'scenario': 'hint_drift', 'positions': sc['positions'], 'ori': sc['ori'],
-                'opts': _plain_opts(sc['opts']), 'expected': sc['expected']}
-        ctx.case(scenario='hint_drift', n=len(sc['positions']), outcome=obs[0], expected=sc['expected'][0],
-                 nontrivial_key=('hint_drift', i, obs[0]))
-        before = len(ctx.failures)
-        _check_expected(ctx, case, obs, sc)
-        if len(ctx.failures) == before:
-            _check_order(ctx, case, obs, sc)
-        del ctx.failures[before + 1:]
-        reqs.append(('volumePositions', _margs(sc)))
-        pend.append((case, obs, False))
+    for want in ('hint_drift', 'min_gap_jitter'):
+        for i in range(6 if ctx.tier == 'quick' else 12):
+            r = ctx.rng(want, i)
+            sc = _scenario(r, i, want=want)
+            st, val = _call(sp.get_volume_positions, sc['positions'], sc['ori'], **sc['opts'])
+            obs = _observe(st, val)
+            case = {'fn': 'get_volume_positions', 'i': i, 'scenario': want, 'positions': sc['positions'], 'ori': sc['ori'],
+                    'opts': _plain_opts(sc['opts']), 'expected': sc['expected']}
+            if want == 'min_gap_jitter':
+                case['min_gap_jittered'] = True
+            ctx.case(scenario=want, n=len(sc['positions']), outcome=obs[0], expected=sc['expected'][0],
+                     nontrivial_key=(want, i, obs[0]))
+            before = len(ctx.failures)
+            _check_expected(ctx, case, obs, sc)
+            if len(ctx.failures) == before:
+                _check_order(ctx, case, obs, sc)
+            del ctx.failures[before + 1:]
+            reqs.append(('volumePositions', _margs(sc)))
+            pend.append((case, obs, False))
 
 
 # ------------------------------------------------------------------ 2. numpy primitives against their declarative models (L2)
@@ -661,6 +693,10 @@ def _assembly_cases(ctx, reqs, pend):
         if kind == 'series':
             base = sources.ct_series(nsl, rows, cols, orientation=ori, origin=origin, pixel_spacing=ps, slice_spacing=s,
                                      rng=np.random.default_rng(seedpix))
+            if not irregular and i % 3 == 0:
+                # the slice spacing is declared on every dataset, or on one of them only (anywhere in the order)
+                for ds in (base if r.random() < 0.5 else [base[r.randrange(nsl)]]):
+                    ds.SpacingBetweenSlices = abs(s)
             if i % 4 != 3:
                 # PET / MR style: every slice carries its own rescale parameters (dyadic, so the expectation is exact)
                 for ds in base:
@@ -702,6 +738,12 @@ def _assembly_cases(ctx, reqs, pend):
                     or not np.array_equal(v2.array, v1.array):
                 ctx.fail(dict(case, what='same instances moved'), {'what': 'volume does not follow the current positions of the datasets',
                                                                   'status': st2m}, site='get_volume_from_series')
+            if nsl == 1:
+                # one dataset: its own SpacingBetweenSlices or 1
+                positions = [[float(x) for x in d.ImagePositionPatient] for d in shuffled]
+                sbs1 = [R(float(d.SpacingBetweenSlices)) if 'SpacingBetweenSlices' in d else None for d in shuffled]
+                reqs.append(('assembleSeries', {'positions': [RL(p) for p in positions], 'ori': RL(ori), 'sbs': sbs1}))
+                pend.append((dict(case, fn='get_volume_from_series'), ('assembly', float(v1.spacing[0]), [float(x) for x in v1.position], [0]), False))
             # sort_datasets yields that order; along the positive normal of the volume convention
             if nsl > 1:
                 st2, srt = _call(sp.sort_datasets, shuffled)
@@ -718,7 +760,8 @@ def _assembly_cases(ctx, reqs, pend):
                             break
                 st3, (sp3, vp3) = _call(sp.get_series_volume_positions, shuffled)
                 positions = [[float(x) for x in d.ImagePositionPatient] for d in shuffled]
-                reqs.append(('assembleSeries', {'positions': [RL(p) for p in positions], 'ori': RL(ori)}))
+                reqs.append(('assembleSeries', {'positions': [RL(p) for p in positions], 'ori': RL(ori),
+                                                'sbs': [R(float(d.SpacingBetweenSlices)) if 'SpacingBetweenSlices' in d else None for d in shuffled]}))
                 # observation through the public API: which input dataset became slice k, the volume position and spacing
                 match = [[int(np.array_equal(v1.array[k], _stored_values(d))) for d in shuffled] for k in range(nsl)]
                 src = [m.index(1) for m in match] if all(sum(m) == 1 for m in match) else None
@@ -807,8 +850,8 @@ def _series_wrapper_cases(ctx, reqs, pend):
     from highdicom import spatial as sp
     from gen import sources
     n = ctx.n(40, 500)
-    kinds = ['plain', 'plain', 'hint_ok', 'hint_bad', 'other_orientation', 'one', 'empty', 'multiframe', 'other_series',
-             'other_for', 'other_spacing', 'no_orientation']
+    kinds = ['plain', 'plain', 'hint_ok', 'hint_bad', 'hint_one', 'hint_one_bad', 'hint_conflict', 'other_orientation', 'one', 'empty',
+             'multiframe', 'other_series', 'other_for', 'other_spacing', 'no_orientation']
     for i in range(n):
         r = ctx.rng('wrap', i)
         kind = kinds[i % len(kinds)]
@@ -824,14 +867,23 @@ def _series_wrapper_cases(ctx, reqs, pend):
         d = [float(np.dot(np.array([float(x) for x in ds.ImagePositionPatient]), nvol)) for ds in dss]
         rank = [sorted(d).index(x) for x in d]
         expect = ('ok', s, rank)
-        hint = None
+        # SpacingBetweenSlices on the datasets: on all of them, on ONE (any place in the given order), conflicting values
         if kind == 'hint_ok':
-            hint = s
+            for ds in dss:
+                ds.SpacingBetweenSlices = s
         elif kind == 'hint_bad':
-            hint = 2 * s
+            for ds in dss:
+                ds.SpacingBetweenSlices = 2 * s
             expect = ('err',)
-        if hint is not None:
-            dss[0].SpacingBetweenSlices = hint
+        elif kind == 'hint_one':
+            dss[r.randrange(nsl)].SpacingBetweenSlices = s
+        elif kind == 'hint_one_bad':
+            dss[r.randrange(nsl)].SpacingBetweenSlices = 2 * s
+            expect = ('err',)
+        elif kind == 'hint_conflict':
+            a, b = r.sample(range(nsl), 2)
+            dss[a].SpacingBetweenSlices = 2 * s
+            dss[b].SpacingBetweenSlices = 3 * s          # no agreed value: no hint
         if kind == 'other_orientation':
             j = r.randrange(1, nsl)
             o2 = list(dss[j].ImageOrientationPatient)
@@ -850,7 +902,7 @@ def _series_wrapper_cases(ctx, reqs, pend):
             dss[r.randrange(nsl)] = sources.enhanced_multiframe(2, 2, 3, orientation=ori)
             expect = ('err',)
         case = {'fn': 'get_series_volume_positions', 'kind': kind, 'i': i, 'n': len(dss)}
-        if kind in ('plain', 'hint_ok', 'hint_bad', 'other_orientation', 'one', 'empty', 'multiframe'):
+        if kind in ('plain', 'hint_ok', 'hint_bad', 'hint_one', 'hint_one_bad', 'hint_conflict', 'other_orientation', 'one', 'empty', 'multiframe'):
             st, val = _call(sp.get_series_volume_positions, dss)
             obs = _observe(st, val)
             ctx.case(scenario='series-' + kind, outcome=obs[0], nontrivial_key=('wrap', kind, len(dss), cls, obs[0]))
@@ -860,10 +912,24 @@ def _series_wrapper_cases(ctx, reqs, pend):
             if kind != 'multiframe':
                 args = {'positions': [RL([float(x) for x in ds.ImagePositionPatient]) for ds in dss],
                         'orientations': [RL([float(x) for x in ds.ImageOrientationPatient]) for ds in dss]}
-                if hint is not None:
-                    args['hint'] = R(hint)
+                args['sbs'] = [R(float(ds.SpacingBetweenSlices)) if 'SpacingBetweenSlices' in ds else None for ds in dss]
                 reqs.append(('seriesVolumePositions', args))
                 pend.append((case, obs, False))
+            # the answer must not depend on the order of the datasets
+            if len(dss) > 1 and kind != 'multiframe':
+                perm = list(range(len(dss)))
+                r.shuffle(perm)
+                st_p, val_p = _call(sp.get_series_volume_positions, [dss[k] for k in perm])
+                obs_p = _observe(st_p, val_p)
+                want_p = obs if obs[0] != 'ok' else ('ok', obs[1], [obs[2][k] for k in perm])
+                if obs_p[0] != want_p[0] or (obs_p[0] == 'ok' and obs_p[2] != want_p[2]):
+                    ctx.fail(dict(case, perm=perm), {'what': 'get_series_volume_positions depends on the order of the datasets',
+                                                     'got': obs_p, 'want': want_p}, site='get_series_volume_positions')
+                stv, _v = _call(hd.get_volume_from_series, dss)
+                stw, _w = _call(hd.get_volume_from_series, [dss[k] for k in perm])
+                if (stv == 'ok') != (stw == 'ok') or (stv == 'ok' and not (np.array_equal(_v.array, _w.array) and np.array_equal(_v.affine, _w.affine))):
+                    ctx.fail(dict(case, perm=perm, fn='get_volume_from_series'), {'what': 'assembly depends on the order of the datasets',
+                                                                                  'given': stv, 'permuted': stw}, site='get_volume_from_series')
         # every option of the wrapper reaches the core: same answer as get_volume_positions on the extracted positions
         if kind == 'plain' and nsl >= 3:
             kw = {}
@@ -1073,17 +1139,17 @@ def run(ctx):
 
 def attribute(failure, open_findings):
     """Failures of the oracle that belong to an open known finding (call site + input class); anything else stays a
-    violation.  C11-hint-drift: get_volume_positions in the gaps branch with a spacing hint that differs from the true
-    spacing of the constructed stack."""
+    violation.  C11-gaps-min-gap-estimate: get_volume_positions in the gaps branch WITHOUT a hint, the constructed stack has
+    its smallest gap jittered, and the failure is a refusal of a stack that is regular within tolerance."""
     case = failure.get('case') if isinstance(failure, dict) else None
-    if not isinstance(case, dict) or failure.get('site') not in ('get_volume_positions', 'permutation'):
+    if not isinstance(case, dict) or failure.get('site') != 'get_volume_positions':
         return None
     opts = case.get('opts') or {}
-    exp = case.get('expected') or ()
-    if opts.get('allow_missing_positions') and 'spacing_hint' in opts and len(exp) >= 2 and exp[0] == 'ok' \
-            and abs(abs(opts['spacing_hint']) - exp[1]) > 1e-9 * exp[1]:
+    detail = failure.get('detail') or {}
+    if opts.get('allow_missing_positions') and 'spacing_hint' not in opts and case.get('min_gap_jittered') \
+            and isinstance(detail, dict) and detail.get('what') == 'regular stack not recognised':
         for f in open_findings:
-            if f.get('id') == 'C11-hint-drift':
+            if f.get('id') == 'C11-gaps-min-gap-estimate':
                 return f['id']
     return None
 
